@@ -290,9 +290,15 @@ pub fn enc_info(r: lexpr::datum::Ref<'_>, out: &mut Vec<String>) {
     }
 }
 
+/// Last number a parser returned whose accessors disagree with each other (C20), drained by the oracle.
+pub static COHERENCE_FAIL: std::sync::Mutex<Option<String>> = std::sync::Mutex::new(None);
+
 pub fn item_value(r: Result<Option<Value>, lexpr::parse::Error>) -> String {
     match r {
-        Ok(Some(v)) => format!("val {}", enc_value(&v)),
+        Ok(Some(v)) => {
+            if let Some(bad) = crate::oracle::incoherent_number(&v) { *COHERENCE_FAIL.lock().unwrap() = Some(bad); }
+            format!("val {}", enc_value(&v))
+        }
         Ok(None) => "none".into(),
         Err(e) => err_item(e),
     }
